@@ -209,6 +209,24 @@ def firstRefused (s : State) : Program → Option Nat
     | (s', .ok) => (firstRefused s' rest).map (· + 1)
     | _ => some 0
 
+/-- Calls outside the direction implementation ⇒ specification: what `Prog2.Call.inScope` excludes,
+    and a `clear()` whose entry nodes are not all still there when their turn comes (the
+    specification tests that, `specRemoveAll`; xot does not). -/
+def Call.inScope (f : Forest) : Call → Bool
+  | .old c => c.inScope f
+  | .mapClear k e => !isElementAt f e || (specRemoveAll (entryHandles f k e) f).isSome
+  | _ => true
+
+def inScope (s : State) : Program → Bool
+  | [] => true
+  | st :: rest =>
+    (match st.resolve s.forest s.env with
+     | none => true
+     | some c => c.inScope s.forest) &&
+    (match stepImpl s st with
+     | (s', .ok) => inScope s' rest
+     | _ => true)
+
 /-- An extended program (`Prog2`) as a program with navigation. -/
 def ofOld (P : Prog2.Program) : Program := P.map .old
 
